@@ -144,3 +144,45 @@ def lambdas_of(db, parent_name):
 
 def field_of(e):
     return norm(e.get('lfield') or e.get('field') or '')
+
+
+def reach(db, roots, boundary=None, maxfn=5000):
+    """AST-level call-graph closure from function instances `roots` (direct calls with a body under src/cocls/, lambdas handed to
+    immediate std entry points). Returns (visited instances, {external callee name: (caller, loc)}, [(caller, event)] indirect calls)"""
+    from .core import STD_IMMEDIATE
+    seen = {}; work = list(roots); ext = {}; indirect = []
+    while work:
+        f = work.pop()
+        k = (f['key'], f['inst'])
+        if k in seen:
+            continue
+        seen[k] = f
+        if len(seen) > maxfn:
+            raise Broken('call-graph closure exceeds %d functions' % maxfn)
+        for e in f.events():
+            if e.k not in ('call', 'construct'):
+                continue
+            if e.get('callee_key'):
+                c = db.get(e['callee_key'], e.get('callee_inst'))
+                if c is not None and not (boundary and boundary(c)):
+                    work.append(c)
+                elif c is not None:
+                    ext.setdefault('boundary:' + c['nname'], (f['nname'], e.get('loc')))
+            elif e.get('callee'):
+                n = norm(e['callee'])
+                ext.setdefault(n, (f['nname'], e.get('loc')))
+                idx = STD_IMMEDIATE.get(n)
+                if idx is not None:
+                    for a in e.get('args', []):
+                        if (a.get('path') or '').startswith('lambda@'):
+                            c = db.get(a['path'][7:])
+                            if c is not None:
+                                work.append(c)
+            else:
+                indirect.append((f, e))
+    return list(seen.values()), ext, indirect
+
+
+BLOCKING = re.compile(r'^(std::atomic(_flag)?::wait|std::__atomic_base::wait|std::mutex::lock|std::recursive_mutex::lock|std::unique_lock::lock|std::lock_guard::lock_guard|std::unique_lock::unique_lock|'
+                      r'std::scoped_lock::scoped_lock|std::condition_variable::wait(_until|_for)?|std::thread::join|std::this_thread::sleep_(for|until)|std::future::(wait|get)|'
+                      r'pthread_\w+|sem_wait|futex)$')
